@@ -51,6 +51,10 @@ def selftest(prop, R):
                 fired = any(not o[2] for o in R2.obligations)
             except ExtractError:
                 fired = True  # does not compile any more: trivially not silent
+            except Exception:
+                # an engine error on the CHANGED tree is that tree's fail-closed verdict (exit 1 there); it says nothing about the
+                # unchanged tree and must not leak into this run's result
+                fired = True
             # A miss says something about the checker, not about /repo: it is recorded in the evidence (and printed), never
             # turned into a violation of the property on the unchanged tree.
             if fired:
@@ -90,7 +94,11 @@ def main(argv=None):
         R.extra['analysed'] = info
         RUNNERS[args.prop](F, R, args.tier)
         if args.tier == 'thorough' and args.src == '/repo':
-            selftest(args.prop, R)
+            try:
+                selftest(args.prop, R)
+            except Exception:
+                # the self-test is informational: its own failure is reported, never counted against the unchanged tree
+                print('SELFTEST %s: aborted (%s)' % (args.prop, traceback.format_exc().strip().splitlines()[-1][:160]))
     except ExtractError as e:
         R.violation('EXTRACT', 'facts', 'fact extraction failed (fail closed): %s' % str(e)[-1500:])
     except Exception:
